@@ -52,12 +52,13 @@ def C04_dedup_off : Prop :=
 
 /-! ### proved building blocks of the composition
 
-  `C04_dedup_on_partial` and `C04_dedup_off` are stated above and checked differentially against
-  the real querier on every run, but not proved: what is missing is (i) that the rows
-  `overlapSplit` builds from contiguous, per-replica disjoint cuts of one sequence are gap-free
-  (DESIGN's non-obvious lemma), (ii) `boundedSeriesIterator` as a side of the dedup node is not
-  list-like (its `Seek` does not enforce `maxt`), so `node_listLike` does not apply directly, and
-  (iii) that the union of the proxy's sorted cuts is the sequence itself.  Proved: -/
+  `C04_dedup_on_partial` and `C04_dedup_off` are stated above for arbitrary query ranges and are
+  checked differentially against the real querier on every run.  They are PROVED below for query
+  ranges that cover the series (`C04_dedup_on_partial_fullrange`, `C04_dedup_off_fullrange`).
+  For ranges that cut the series two things are missing: `boundedSeriesIterator` as a side of
+  the dedup node is not list-like there (its `Seek` does not enforce `maxt`, so `node_listLike`
+  does not apply directly — this is also why a sample beyond `maxt` can be returned), and the
+  stores' range filter drops chunks, so the first-fit argument needs the filtered cuts. -/
 
 /-- `dedup.NewOverlapSplit` partitions the chunks into non-empty, time-ordered, non-overlapping rows -/
 theorem C04_overlapSplit_partition (cs : List RChunk) :
@@ -377,6 +378,79 @@ theorem C04_dedup_on_partial_fullrange (l : RSeries) (S : List Sample) (qmint qm
     obtain ⟨row, hr, rfl⟩ := List.mem_map.mp hq
     rw [hunion row (by simp [hr])]
     exact row_sublist row S hS (hrows row (by simp [hr])).1 (hrowcut row (by simp [hr]))
+
+/-- **C04, dedup off** (for a query range that covers the series).  A replica whose chunks are
+    cuts of `S` — overlapping in any way, duplicated on several stores — is returned with exactly
+    the samples `S`: `chunkSeriesIterator` skips the overlaps and loses nothing. -/
+theorem C04_dedup_off_fullrange (r : RReplica) (S : List Sample) (qmint qmaxt : Int)
+    (hS : SSorted S) (hpos : ∀ x ∈ S, 1 ≤ x.t) (hSne : S ≠ [])
+    (hcutr : ∀ c ∈ r.chunks, CutOf S c) (hcov : ∀ x ∈ S, ∃ c ∈ r.chunks, x ∈ c.samples)
+    (hrange : ∀ x ∈ S, qmint ≤ x.t ∧ x.t ≤ qmaxt) :
+    selectRaw qmint qmaxt r = some (some S) := by
+  have hfilter : r.chunks.filter (inRange qmint qmaxt) = r.chunks := by
+    apply List.filter_eq_self.mpr
+    intro c hc
+    obtain ⟨hne, hinf⟩ := hcutr c hc
+    obtain ⟨a, ha⟩ : ∃ a, a ∈ c.samples := by
+      cases hcs : c.samples with
+      | nil => exact absurd hcs hne
+      | cons a _ => exact ⟨a, by simp⟩
+    have hb := mem_chunk_bounds hS hinf ha
+    have hr := hrange a (hinf.subset ha)
+    simp only [inRange, Bool.and_eq_true, decide_eq_true_eq]
+    omega
+  have hcsdef : proxyChunks qmint qmaxt r.chunks = sortChunks (dedupContent r.chunks) := by
+    unfold proxyChunks; rw [hfilter]
+  unfold selectRaw
+  generalize hcs : proxyChunks qmint qmaxt r.chunks = cs at hcsdef
+  have hsub : ∀ c ∈ cs, c ∈ r.chunks := by
+    intro c hc; rw [hcsdef] at hc; exact mem_dedupContent_sub (mem_sortChunks.mp hc)
+  have hcut : ∀ c ∈ cs, c.samples ≠ [] ∧ c.samples <:+: S := fun c hc => hcutr c (hsub c hc)
+  have hcover : ∀ x ∈ S, ∃ c ∈ cs, x ∈ c.samples := by
+    intro x hx
+    obtain ⟨c, hc, hxc⟩ := hcov x hx
+    obtain ⟨c', hc', hs'⟩ := dedupContent_complete hc
+    exact ⟨c', by rw [hcsdef]; exact mem_sortChunks.mpr hc', by rw [hs']; exact hxc⟩
+  have hsorted : cs.Pairwise (fun a b => a.mint ≤ b.mint) := by rw [hcsdef]; exact sortChunks_sorted _
+  obtain ⟨c0, cs', hc0⟩ : ∃ c0 cs', cs = c0 :: cs' := by
+    cases hcs2 : cs with
+    | nil =>
+      exfalso
+      obtain ⟨x, hx⟩ : ∃ x, x ∈ S := by
+        cases S with
+        | nil => exact absurd rfl hSne
+        | cons x _ => exact ⟨x, by simp⟩
+      obtain ⟨c, hc, _⟩ := hcover x hx
+      rw [hcs2] at hc; simp at hc
+    | cons c0 cs' => exact ⟨c0, cs', rfl⟩
+  have hunion := union_cover S hS cs hcut hsorted hcover cs [] [] S 0 rfl rfl (by simp)
+    (fun b hb => by have := hpos b hb; omega) (by simp)
+  subst hc0
+  simp only [List.isEmpty_cons, Bool.false_eq_true, if_false, List.map_cons]
+  obtain ⟨it, hit, hg⟩ := chunkSeriesIt_good qmint qmaxt c0.samples (cs'.map (·.samples))
+    ⟨(hcut c0 (by simp)).1, fun x hx => hpos x ((hcut c0 (by simp)).2.subset hx)⟩
+    (by
+      intro d hd
+      obtain ⟨c, hc, rfl⟩ := List.mem_map.mp hd
+      exact ⟨(hcut c (by simp [hc])).1, fun x hx => hpos x ((hcut c (by simp [hc])).2.subset hx)⟩)
+    (by
+      intro d hd x hx
+      rcases List.mem_cons.mp hd with rfl | hd
+      · exact hrange x ((hcut c0 (by simp)).2.subset hx)
+      · obtain ⟨c, hc, rfl⟩ := List.mem_map.mp hd
+        exact hrange x ((hcut c (by simp [hc])).2.subset hx))
+  simp only [hit, drainChecked_goodN hg]
+  simp only [List.map_cons] at hunion
+  rw [hunion]
+
+/-- non-vacuity: a replica of `S = [10, …, 50]` with overlapping and repeated chunks -/
+example : selectRaw 1 100 { rid := 0, chunks := [
+      { store := 0, rank := 0, samples := [⟨10, 1⟩, ⟨20, 2⟩, ⟨30, 3⟩] },
+      { store := 1, rank := 0, samples := [⟨20, 2⟩, ⟨30, 3⟩, ⟨40, 4⟩] },
+      { store := 2, rank := 0, samples := [⟨20, 2⟩, ⟨30, 3⟩, ⟨40, 4⟩] },
+      { store := 0, rank := 0, samples := [⟨30, 3⟩] },
+      { store := 0, rank := 0, samples := [⟨40, 4⟩, ⟨50, 5⟩] } ] }
+    = some (some [⟨10, 1⟩, ⟨20, 2⟩, ⟨30, 3⟩, ⟨40, 4⟩, ⟨50, 5⟩]) := by decide
 
 /-- non-vacuity: two replicas of `S = [10, 20, 30, 40, 50]` cut differently (`[10,20][30,40,50]` on
     stores 0/1 and `[10][20,30][40,50]` on stores 1/0/2), query range `[1, 100]` -/
